@@ -81,6 +81,12 @@ CHECKS['C12'] = dict(
     note='behaviour compared on 9 probe inputs with positions and meta; two known findings (altered body served; pickle can block)',
     ref='6/C12')
 
+CHECKS['C10'] = dict(
+    technique='TLA+ model of the cells shared by calls on one Lark instance (lazy scanner construction, publication of the callback dict) model-checked with TLC over all interleavings; real call histories and real two-thread executions under a deterministic line-level scheduler (switch points = writes to shared objects found by AST query) judged by a trace specification',
+    text='TLC proves ResultIsDenote for all interleavings of 2 (3) threads over the lazy-initialisation protocol when the callback dict is published complete, and produces the interleaving that breaks early publication (3 context switches); on the real code every call of every history of <=3 calls (parse ok / lexer error / parser error, abandoned lex, scan and interactive sessions, other instances; 9 configurations incl. a stateful Indenter post-lexer and pure lexer_callbacks) is compared with a fresh instance, and two threads are run on one instance under a settrace scheduler for every schedule with <=2 switches on a grid plus 3-switch schedules around each write to an object shared between calls; TraceAPI.tla judges every result.',
+    note='line-grain scheduling (CPython may switch between bytecodes); post-lexer configurations only in histories, as stated',
+    ref='6/C10')
+
 NOT_APPLICABLE = []
 
 
